@@ -71,16 +71,17 @@ theorem C21_checkRe_sound (accs : List Acc) (re : Re) (h : checkRe accs re = tru
     (w : List Nat) (hw : L re w) : Good accs w :=
   checkRe_sound accs re h w hw
 
-/-- **Soundness of the validator.** If `checkTypes` accepts, then for every node type `T = i+1` its
-accessors are well formed and for EVERY child sequence `w` of a `T` node in any derivation tree of `g`:
-required accessors are present, results are typed as declared (no panic), every child is covered. -/
-theorem C21_checkTypes_sound (g : AGrammar) (alph : List (List Nat)) (nul : List Bool) (types : Types)
-    (h : checkTypes g alph nul types = true) (i : Nat) (hi : i < types.length) :
+/-- **Soundness of the validator (field part).** If `checkFields` accepts, then for every node type
+`T = i+1` its accessors are well formed and for EVERY child sequence `w` of a `T` node in any derivation
+tree of `g`: required accessors are present, results are typed as declared (no panic), every child is
+covered. -/
+theorem C21_checkFields_sound (g : AGrammar) (alph : List (List Nat)) (types : Types)
+    (h : checkFields g alph types = true) (i : Nat) (hi : i < types.length) :
     ∃ accs, mkAccs (types.getD i []) = some accs ∧
       ∀ w, ChildSeq g (i + 1) w → Good accs w ∧ ∀ acc ∈ accs, ¬ Panics acc w := by
-  unfold checkTypes at h
+  unfold checkFields at h
   simp only [Bool.and_eq_true] at h
-  obtain ⟨⟨⟨⟨hwf, hal⟩, _⟩, _⟩, hall⟩ := h
+  obtain ⟨⟨hwf, hal⟩, hall⟩ := h
   have hi' := List.all_eq_true.mp hall i (List.mem_range.mpr hi)
   cases hm : mkAccs (types.getD i []) with
   | none => rw [hm] at hi'; cases hi'
@@ -88,6 +89,15 @@ theorem C21_checkTypes_sound (g : AGrammar) (alph : List (List Nat)) (nul : List
     rw [hm] at hi'
     refine ⟨accs, rfl, fun w hw => ⟨?_, fun acc _ => C21_accessor_no_panic acc w⟩⟩
     exact checkRe_sound accs _ hi' w (approx_sound _ hwf hal hw)
+
+/-- **Soundness of the validator**: the field guarantees, and no node can be empty. -/
+theorem C21_checkTypes_sound (g : AGrammar) (alph : List (List Nat)) (nul : List Bool) (types : Types)
+    (h : checkTypes g alph nul types = true) (i : Nat) (hi : i < types.length) :
+    ∃ accs, mkAccs (types.getD i []) = some accs ∧
+      ∀ w, ChildSeq g (i + 1) w → Good accs w ∧ ∀ acc ∈ accs, ¬ Panics acc w := by
+  unfold checkTypes at h
+  simp only [Bool.and_eq_true] at h
+  exact C21_checkFields_sound g alph types h.1.1 i hi
 
 /-- An accepted grammar has no empty node: every rule type and every nested reported range spans at
 least one token in every derivation (the offset-based tree builder misplaces empty nodes). -/
@@ -97,8 +107,7 @@ theorem C21_nodes_nonempty (g : AGrammar) (alph : List (List Nat)) (nul : List B
     (∀ t kids, (t, kids) ∈ r.body.occs → ∀ n, Toks g (.seq kids) n → 0 < n) := by
   unfold checkTypes at h
   simp only [Bool.and_eq_true] at h
-  obtain ⟨⟨⟨⟨_, _⟩, hnc⟩, hne⟩, _⟩ := h
-  exact nodes_nonempty hnc hne hr
+  exact nodes_nonempty h.1.2 h.2 hr
 
 /-! ## Non-vacuity
 
